@@ -138,7 +138,33 @@ class C03(RunProp):
         g["edges"] = edges
         return c
 
+    @staticmethod
+    def _stacked_gates(rng: random.Random) -> dict:
+        """Gates that are targets of gates (two or three levels), default-open, every input available from the first step: a gate held
+        back by its own controlling gate still holds its targets back."""
+        levels = rng.choice([2, 2, 3])
+        nodes: list[dict] = []
+        values = []
+        for lv in range(levels):
+            nxt = f"g{lv + 1}" if lv + 1 < levels else None
+            tgt_a, tgt_b = f"a{lv}", f"b{lv}"
+            targets = ([nxt] if nxt else []) + [tgt_a, tgt_b] + (["__END__"] if rng.random() < 0.5 else [])
+            rows = [[v, rng.choice(targets + [None])] for v in range(0, 4)]
+            nodes.append({"name": f"g{lv}", "kind": "route", "params": [[f"c{lv}", None]], "targets": targets, "multiTarget": False, "fallback": None,
+                          "defaultOpen": True if lv else rng.random() < 0.8, "body": {"b": "table", "rows": rows, "dflt": None}})
+            for t in (tgt_a, tgt_b):
+                nodes.append({"name": t, "kind": "fn", "params": [["x", None]], "dataOuts": [f"r_{t}"], "body": {"b": "tag", "t": t}})
+            values.append([f"c{lv}", rng.randint(0, 3)])
+        values.append(["x", rng.randint(0, 3)])
+        rng.shuffle(nodes)
+        return {"program": [{"name": "g0", "nodes": nodes, "bound": []}], "values": values, "kind": "dag"}
+
     def cases(self, rng: random.Random, tier: str) -> Iterable[dict]:
+        # whatever the seed: stacked gates, stacked-gate loops, plain loops
+        for c in [self._stacked_gates(rng) for _ in range(5)] + [dict(gen.gen_nested_gate_loop(rng), kind="loop") for _ in range(5)] + \
+                [dict(gen.gen_loop(rng), kind="loop") for _ in range(5)]:
+            for runner in ("sync", "async"):
+                yield {"program": c["program"], "values": c["values"], "cfg": c.get("cfg", {}), "runner": runner, "kind": c["kind"]}
         forced_explicit = 6
         while True:
             if forced_explicit or rng.random() < 0.08:
